@@ -16,8 +16,15 @@ CFG = {
         "Leptos.Owner.C08_disposed_effect_never_runs",
         "Leptos.Owner.C08_effects_in_scope_never_run",
         "Leptos.Owner.C08_dropped_render_effect_never_runs",
+        "Leptos.Owner.C08_scope_cleanup_cancels",
+        "Leptos.Owner.C08_scoped_hook_registered",
+        "Leptos.Owner.C08_held_owner_survives",
         "Leptos.Owner.C08_memo_rerun_releases",
         "Leptos.Owner.C08_effect_rerun_releases",
+        "Leptos.Owner.C08_render_rerun_releases",
+        "Leptos.Owner.C08_imm_rerun_releases",
+        "Leptos.Owner.C08_imm_disposed_midrun_reruns",
+        "Leptos.Owner.C08_imm_disposed_midrun_stops",
         "Leptos.Owner.C08_with_cleanup_releases",
         "Leptos.Owner.C08_watch_handler_unowned",
         "Leptos.Owner.C08_watch_handler_owned",
@@ -46,10 +53,15 @@ CFG = {
     "n": {"quick": 6000, "thorough": 100000},
     "trivial_tags": ["plain", "end"],
     "rule": "owner-tree programs on the real reactive_graph under the controlled executor: bodies (token lists) of "
-            "effects (Effect::new/new_sync/new_isomorphic/watch/watch_sync, RenderEffect, AsyncDerived)/memos that create signals, stored values, cleanups (plain and registering-during-cleanup), contexts, "
-            "nested effects/memos/owners; histories of creation under up to two nested `Owner::with`, `cleanup`, handle drop, "
-            "`dispose`, direct `with_cleanup`, signal writes + poll/idle schedules, pause/resume, context lookups; first block = the re-run matrix "
-            "(11 kinds of owner-scoped re-run x 7 classes of what the body allocates: only plain arena values / only cleanups / only child owners / "
+            "effects (Effect::new/new_sync/new_isomorphic/watch/watch_sync, RenderEffect::new/new_isomorphic, AsyncDerived, "
+            "ImmediateEffect::new/new_scoped/new_mut/new_isomorphic)/memos/scoped tasks (spawn_local_scoped, spawn_local_scoped_with_cancellation, "
+            "ScopedFuture; two segments each) that create signals, stored values, cleanups (plain and registering-during-cleanup), contexts, "
+            "nested effects/memos/owners/tasks and write signals (`z`: the recursive shape of an immediate effect); histories of creation under up to two nested `Owner::with`, `cleanup`, handle drop, "
+            "`dispose`, direct `with_cleanup`, signal writes + poll/idle schedules, pause/resume, context lookups; first block = the scoped-task matrix "
+            "(3 spawn functions x 5 spawning scopes: owner handle / effect / render effect / immediate effect / with_cleanup x release of the spawning "
+            "scope before the first poll / between the polls / after completion x by cleanup / re-run / drop), the recursive shapes (7 kinds x 3 bodies "
+            "that write one of their own dependencies after allocating) and the re-run matrix "
+            "(16 kinds of owner-scoped re-run x 7 classes of what the body allocates: only plain arena values / only cleanups / only child owners / "
             "nested effect / nested memo / mixture / nothing, x 2 endings), then every sequence of "
             "3 (thorough: 4) ops over a 14-op alphabet after a fixed nested-effect prelude (exhaustive small scope), rest = seeded random "
             "(depth <= 5); a case = one history; distinct = distinct op list; non-trivial = a case with a re-run, nested creation, "
@@ -62,12 +74,19 @@ CFG = {
     ],
     "modelled": ["Owner::{new, child, with, with_cleanup, cleanup, on_cleanup, register, pause, resume}", "impl Cleanup for RwLock<OwnerInner>",
                  "Drop for OwnerInner", "Arena (SlotMap)", "ArenaItem::{new_with_storage, try_with_value, dispose, is_disposed}",
-                 "provide_context/use_context/take_context", "StoredValue", "Effect::new / new_sync / new_isomorphic / watch / watch_sync task loops + channel close (watch handler as repaired by hooks/fix-c08-2.patch)", "RenderEffect::new", "AsyncDerived::new (future ready at once)", "Memo (signal sources only)"],
+                 "provide_context/use_context/take_context", "StoredValue", "Effect::new / new_sync / new_isomorphic / watch / watch_sync task loops + channel close (watch handler as repaired by hooks/fix-c08-2.patch)", "RenderEffect::new / new_isomorphic", "AsyncDerived::new (future ready at once)",
+                 "ImmediateEffect::{new, new_scoped, new_mut, new_isomorphic, dispose} + update_if_necessary / mark_dirty / add_source (recursion counters)",
+                 "spawn_local_scoped / spawn_local_scoped_with_cancellation / ScopedFuture::{new, poll} (futures::future::Abortable trusted: abort flag checked before and after the inner poll)",
+                 "RwSignal::try_set notifying a snapshot of the subscribers in subscription order", "Memo (signal sources only)"],
     "assumptions": [
         "default features (one process-wide arena; `sandboxed-arenas` off); single thread",
         "values stored in the arena do not themselves call back into the arena from their destructors while the arena lock is held "
         "(the code removes nodes under the write lock; a destructor that re-enters would deadlock — not reachable from the op grammar)",
         "memos read signals only and effects read memos untracked (the propagation protocol is C01/C02/C09's subject)",
+        "signal writes from bodies are monotone (`if s < v { s.set(v) }`, v <= 3 in generated cases) so that every cascade of immediate effects terminates; "
+        "no writes inside memos, inside `new_mut` functions (they panic on recursion) and while an AsyncDerived is being constructed; "
+        "scoped tasks are not spawned from inside a memo or a `new_scoped` effect (their owners are dropped by an arena value / a cleanup closure, "
+        "outside the reference count the model keeps for owners)",
     ],
     "manifest": {
         "category": "proof",
